@@ -339,8 +339,59 @@ fn ops_bool(op: &str, args: &[Arg]) -> Option<String> {
     })
 }
 
+/// exact f64 with value m * 2^e (the generator only sends representable pairs: every intermediate is exact)
+fn dy_to_f64(m: i128, e: i128) -> f64 {
+    if e >= 100001 { return f64::NAN }
+    if e == 100000 { return if m < 0 { f64::NEG_INFINITY } else { f64::INFINITY } }
+    let mut x = m as f64;
+    let mut e = e;
+    while e > 0 { x *= 2.0; e -= 1; }
+    while e < 0 { x *= 0.5; e += 1; }
+    x
+}
+/// canonical (odd mantissa, exponent) of a double; zero -> 0/0, +-inf -> +-1/100000, NaN -> 0/100001
+fn f64_to_dy(x: f64) -> String {
+    if x.is_nan() { return "0/100001".into() }
+    if x.is_infinite() { return if x > 0.0 { "1/100000".into() } else { "-1/100000".into() } }
+    if x == 0.0 { return "0/0".into() }
+    let b = x.to_bits();
+    let neg = (b >> 63) != 0;
+    let ex = ((b >> 52) & 0x7ff) as i64;
+    let frac = b & ((1u64 << 52) - 1);
+    let (mut m, mut e) = if ex == 0 { (frac, -1074i64) } else { (frac | (1u64 << 52), ex - 1075) };
+    while m % 2 == 0 { m /= 2; e += 1; }
+    format!("{}{}/{}", if neg { "-" } else { "" }, m, e)
+}
+fn dy_arr_str(a: &Array<f64>) -> String {
+    if let Some(v) = wf_violation(a) { return v }
+    format!("parr({}:{})", shape_str(&a.get_shape().unwrap()), a.get_elements().unwrap().iter().map(|&x| f64_to_dy(x)).collect::<Vec<_>>().join(","))
+}
+fn mk_dy(sh: &[usize], ms: &[i128], es: &[i128]) -> Option<Array<f64>> {
+    if ms.len() != es.len() { return None }
+    Array::new(ms.iter().zip(es).map(|(&m, &e)| dy_to_f64(m, e)).collect(), sh.to_vec()).ok()
+}
+/// C05: mantissa / exponent decomposition on exact values
+fn frexp_ops(op: &str, args: &[Arg]) -> Option<String> {
+    Some(match (op, args) {
+        ("frexp", [Arg::A(s, ms), Arg::A(_, es)]) => match mk_dy(s, ms, es)?.frexp() {
+            Ok((man, ex)) => format!("list({};{})", dy_arr_str(&man), arr_str(&ex)),
+            Err(e) => err_str(&e),
+        },
+        ("ldexp", [Arg::A(s, ms), Arg::A(_, es), Arg::A(sk, ks)]) => {
+            let k: Array<i32> = mk(sk, ks)?;
+            match mk_dy(s, ms, es)?.ldexp(&k) { Ok(r) => dy_arr_str(&r), Err(e) => err_str(&e) }
+        }
+        ("frexp_ldexp", [Arg::A(s, ms), Arg::A(_, es)]) => match mk_dy(s, ms, es)?.frexp() {
+            Ok((man, ex)) => match man.ldexp(&ex) { Ok(r) => dy_arr_str(&r), Err(e) => err_str(&e) },
+            Err(e) => err_str(&e),
+        },
+        _ => return None,
+    })
+}
+
 pub fn dispatch(op: &str, ty: &str, args: &[Arg]) -> Option<String> {
     let r: Option<String> = match op {
+        "frexp" | "ldexp" | "frexp_ldexp" => frexp_ops(op, args),
         "ew2" | "ew1" => {
             let (name, rest) = match args.first() { Some(Arg::S(n)) => (String::from_utf8(n.clone()).ok()?, &args[1..]), _ => return Some("bad".into()) };
             if op == "ew2" { num_type!(ty, N, pool, ew2::<N>(pool, &name, rest)) } else { num_type!(ty, N, pool, ew1::<N>(pool, &name, rest)) }
